@@ -1,5 +1,5 @@
 SPECIFICATION Spec
-INVARIANT AllAddresses AsEachCompletes CombinedErrorIffBothFail NoResponseIffNothing Literals EndsOnce ErrorIsLast QueueOneFamily Emit
+INVARIANT AllAddresses AsEachCompletes CombinedErrorIffBothFail NoResponseIffNothing PreferredFamily JoinReturnsAll JoinWaitsForBoth Literals EndsOnce ErrorIsLast QueueOneFamily Emit
 CHECK_DEADLOCK FALSE
 CONSTANTS
   Timeout = 12
